@@ -765,7 +765,10 @@ class Flows:
                     # definitions of a local (or writes to memory); the conditions under which a
                     # single definition / a call / another branch executes at all do not
                     if n[0] == "SW":
-                        continue
+                        # ... except the other half of one compound condition: in `a && b` / `a || b` the two
+                        # switches share an exit, and together they select the definition
+                        if not (_exits(b, n[1]) & _exits(b, m[1])):
+                            continue
                     if n[0] == "CALL":
                         tc_ = b.blocks[n[1]].term
                         dl = tc_.dest
@@ -902,6 +905,20 @@ class Flows:
                             for r in cf._op_reads(t.args[idx - 1]):
                                 work.append((cp, r, ()))
         return out
+
+
+def _exits(b, bb):
+    """successors of a switch, looking through empty goto-only blocks"""
+    out = set()
+    for y in b.succ(bb):
+        for _ in range(4):
+            blk = b.blocks[y]
+            if blk.term.k == "goto" and not any(s_.k == "assign" for s_ in blk.stmts):
+                y = b.succ(y)[0]
+            else:
+                break
+        out.add(y)
+    return out
 
 
 def sources_in(slice_set, prog):
